@@ -15,7 +15,7 @@ Expression space (surface syntax; see `expression_space`):
   nesting 0  every raw predicate (10 classes, 3 parametrised hints, 4 identifiers, 3 regex strings), P[raw], P.name, P[r1, r2] over
              all ordered pairs of 6 raws and two 3-ary tuples, P.ANY, P.generic_arg(pos, raw), ALL chains of length 2 over a
              12-element alphabet and ALL chains of length 3 over a 5-element alphabet (P[A].a, P.a[int], P[C].a[A] ...)
-  nesting 1  ~p for every pattern p of nesting 0; p|q, p&q, p^q for all ordered pairs over the 28 MID patterns; p+q for all ordered
+  nesting 1  ~p for every pattern p of nesting 0; p|q, p&q, p^q for all ordered pairs over the 29 MID patterns; p+q for all ordered
              pairs of MID patterns that are P patterns
   nesting 2  over the 6 CORE patterns: ~e, e op c, c op e, e + c, c + e, e.a, e[int] for every nesting-1 expression e over CORE and
              every CORE pattern c; over the 3 CORE3 patterns additionally e op e' for every pair of nesting-1 expressions
